@@ -216,6 +216,13 @@ pub fn unit_source(d: &Decl, no_std: bool, extra: &str) -> String {
             }
         }
     }
+    if d.stateful_default() {
+        let body = &d.default.as_ref().unwrap().neutral_text;
+        let ii = d.inner.ty();
+        o.push_str("static DCTR: ::core::sync::atomic::AtomicUsize = ::core::sync::atomic::AtomicUsize::new(0);\n");
+        o.push_str(&format!("pub fn default_at(i: usize) -> {ii} {{ {body} }}\n"));
+        o.push_str(&format!("pub fn next_default() -> {ii} {{ default_at(DCTR.fetch_add(1, ::core::sync::atomic::Ordering::SeqCst)) }}\n"));
+    }
     let decl = if no_std { d.decl_text().replace("vec![", "alloc::vec![").replace("Vec::new()", "alloc::vec::Vec::new()") } else { d.decl_text() };
     o.push_str(&decl);
     o.push('\n');
